@@ -8,7 +8,7 @@ open AcraModel Generated
 
 /-- a crypto back end that accepts everything (only to show that the success branches of the
 decoders are reachable; satisfies no law) -/
-def toyOps : CryptoOps where
+def safeToyOps : CryptoOps where
   enc := fun _ _ m _ => some m
   dec := fun _ _ ct => some ct
   wrap := fun _ _ m _ => some m
